@@ -259,7 +259,7 @@ type c04PodSt struct {
 	bound   bool // harness view: bound since the last delete (superset of the gang's BoundChildren)
 	flight  int  // 0 none, 1 parked at Permit (framework waiting map), 2 released (bind pending), 3 rejected (unreserve pending)
 	seenNode bool // an informer event of this pod incarnation carried a node name (it can never be empty again)
-	tainted bool // a Permit was issued for the pod while it was bound: the scheduler never does that (framework contract); such a pod is exempt from the two-sets clause
+	tainted bool // the pod got a call outside the framework / informer contract (Permit while bound, PostBind without release, node name going back to empty); such a pod is exempt from the two-sets clause (not from member-in-no-set)
 }
 
 func TestVerifC04(t *testing.T) {
@@ -611,7 +611,8 @@ func TestVerifC04(t *testing.T) {
 				pod.Status.Phase = []corev1.PodPhase{corev1.PodSucceeded, corev1.PodFailed}[r.Intn(2)]
 			}
 			if !term && !node && ps.seenNode {
-				h.Tag("out-of-order:node-name-unset") // cannot come from an informer; the property must survive it anyway
+				ps.tainted = true // an informer never shows a node name and then an empty one for the same pod
+				h.Tag("out-of-order:node-name-unset")
 			}
 			fwB := begin()
 			if update {
@@ -706,7 +707,8 @@ func TestVerifC04(t *testing.T) {
 		doPostBind := func(ps *c04PodSt) {
 			pod, _ := mkPod(ps, "")
 			if ps.flight != 2 {
-				h.Tag("out-of-order:postbind-without-release") // the property must survive it anyway
+				ps.tainted = true // the framework calls PostBind only for a pod that left Permit with Success / Allow
+				h.Tag("out-of-order:postbind-without-release")
 			}
 			fwB := begin()
 			delete(fh.waiting, ps.id)
